@@ -137,7 +137,7 @@ pub fn oracle(f: u32, a: &Args, out: &Args) -> Option<(&'static str, String)> {
                 && m.contains_key(":authority")
                 && m.contains_key(":path");
             if (out[0][0] == 1) != want {
-                return Some(("C18", format!("request admitted={} but well-formed={}", out[0][0] == 1, want)));
+                return Some(("C18+C02", format!("request admitted={} but well-formed={} (fields: {:?})", out[0][0] == 1, want, m)));
             }
             None
         }
